@@ -1,13 +1,14 @@
 import RsMatterVerif.Lemmas.Transport
 import RsMatterVerif.Lemmas.Rendezvous
 import RsMatterVerif.Lemmas.Handshake
+import RsMatterVerif.Lemmas.HandshakeOwn
 import RsMatterVerif.Props.C10
 /-!
 # C20 — unfinished or hostile handshakes cannot leak or exhaust node resources for good
 
 **Run-level theorems** (over all histories of the transition systems `Model/Handshake.lean` and
 `Model/Rendezvous.lean`; invariants proved by induction over the history in `Lemmas/Handshake.lean`,
-`Lemmas/Rendezvous.lean`):
+`Lemmas/Rendezvous.lean`, `Lemmas/HandshakeOwn.lean`):
 * `reserved_iff_guard`, `reach_capacity_and_ids`, `abandoned_reservation_released`,
   `no_reserved_at_quiescence`, `guarded_sessions_survive_eviction`, `idle_session_admits_reservation`
   (hypothesis of every step: the 28-bit session id counter has not wrapped, `Handshake.noWrap`);
@@ -16,10 +17,16 @@ import RsMatterVerif.Props.C10
 * `marker_expiry_bounded`, `dead_owner_marker_not_live`, `expired_marker_of_dead_owner_is_cleared`,
   `marker_released_at_quiescence`.
 
-**Partial** (the full statement is a `def … : Prop`, the extra hypothesis is named in the docstring):
-`live_handles_survive_eviction_partial` (`live_handles_survive_eviction_full`, hypothesis
-`HandlesOccupied` for the state before the step), `quiescent_no_leak_partial`
-(`quiescent_no_leak_full`, hypotheses `OwnedHaveHandles` and the C10 statement `NoPending`).
+* `owned_iff_handle` (`Lemmas/HandshakeOwn.lean`: an exchange slot is owned iff a live `Exchange` handle
+  points to it), hence `live_handles_survive_eviction` (a session a live handle points to is never
+  the eviction victim) and `quiescent_no_leak` (no incomplete guard, no handle, closer idle ⇒ every
+  session unreserved and without exchanges) — the latter with ONE remaining hypothesis, `NoPending`,
+  which is a statement about the receive path and is proved for the receive-path system in C10
+  (`C10.empty_slot_no_pending`, `C10.unclaimed_discarded_within`).
+
+The earlier conditional forms are kept: `live_handles_survive_eviction_partial`
+(`live_handles_survive_eviction_full`, hypothesis `HandlesOccupied`), `quiescent_no_leak_partial`
+(`quiescent_no_leak_full`, hypotheses `OwnedHaveHandles`, `NoPending`).
 `two_slots_needed`: the open finding `C20-handshake-needs-two-slots` on the model.
 
 **One-step facts** about single functions of `Model/Transport.lean` on arbitrary tables:
@@ -466,6 +473,46 @@ theorem live_handles_survive_eviction_partial : live_handles_survive_eviction_fu
     cases hsl
 
 open Handshake in
+/-- **Owned slots and live handles correspond** (every reachable state, `Lemmas/HandshakeOwn.lean`):
+an exchange slot of a session of the table is `Initiator(Owned)` / `Responder(Owned)` exactly if a live
+`Exchange` handle points to it. Proved by following the owned slots through every step
+(`post_recv`, `accept_if`, `initiate_for_session`, `Exchange::drop`, the closer, the accept sweep,
+session removal / eviction, reservation ops). -/
+theorem owned_iff_handle (s : Sys) (h : Reach s) (x : Sess) (hx : x ∈ s.t.sessions) (i : Nat) :
+    ownedSlot (x.slot i) = true ↔ (x.uid, i) ∈ s.handles :=
+  ⟨(hinv_reach s h).ownedHave x hx i, fun hh => (hinv_reach s h).haveOwned _ hh x hx rfl⟩
+
+open Handshake in
+/-- **Sessions that carry a live exchange are never evicted** (every reachable state, no extra
+hypothesis): if a live `Exchange` handle points to a session of the table, an `evict` step
+(`get_session_for_eviction` + removal) leaves that session in the table, unchanged. This closes what
+`live_handles_survive_eviction_partial` left as the hypothesis `HandlesOccupied`: for handles whose
+session is still in the table it is the invariant `owned_iff_handle`. (A handle whose session was
+removed behind its back by `Sessions::remove` / by the closer closing the whole session points to
+nothing; that is not eviction.) -/
+theorem live_handles_survive_eviction (s : Sys) (h : Reach s) (hd : Nat × Nat) (hh : hd ∈ s.handles)
+    (x : Sess) (hx : x ∈ s.t.sessions) (hu : x.uid = hd.1) : x ∈ (step s .evict).t.sessions := by
+  have hi := inv_reach s h
+  have hown := (hinv_reach s h).haveOwned hd hh x hx hu
+  simp only [step, opEvict]
+  cases he : s.t.evictionUid s.now with
+  | none => exact hx
+  | some v =>
+    simp only
+    obtain ⟨y, hy, hyu, _, hne⟩ := evictionUid_spec s.t s.now v he
+    refine (mem_remove s.t hi.nodup v x).2 ⟨hx, ?_⟩
+    intro hxv
+    have : x = y := nodup_map_inj (fun (z : Sess) => z.uid) s.t.sessions hi.nodup x hx y hy (by rw [hxv, hyu])
+    rw [this, noExchanges_slots y hne hd.2] at hown
+    simp [ownedSlot] at hown
+
+open Handshake in
+/-- non-vacuity: a reachable state with a live handle on an owned slot -/
+example : (Handshake.run Handshake.init (exOps ++ [.dropGuard 1, .initiate 2])).handles = [(2, 0)] ∧
+    ((Handshake.run Handshake.init (exOps ++ [.dropGuard 1, .initiate 2])).t.sessions.map
+      (fun x => (x.uid, x.exchs.map (fun o => ownedSlot o)))) = [(0, []), (2, [true])] := by decide
+
+open Handshake in
 theorem reserve_ok_guards (s : Sys) (ctr u : Nat) (h : (s.t.add ctr true s.now).2 = .ok u) :
     (step s (.reserve ctr)).guards = { uid := u } :: s.guards := by
   simp only [step, opReserve, h]
@@ -592,6 +639,23 @@ theorem quiescent_no_leak_partial (s : Handshake.Sys) (h : Handshake.Reach s)
       cases this
     rw [hs] at hown
     cases hr : e.role <;> simp [hr, Handshake.ownedSlot, RoleSt.isDropped] at hd hnp hown
+
+/-- **No leak at quiescence** (every history): in a reachable state where every handshake task has
+ended or completed its session (no live incomplete `ReservedSession`), no `Exchange` handle is alive
+and the closer has nothing left to do, every session of the table is unreserved and carries no
+exchange — under the ONE remaining hypothesis `NoPending` (no exchange waits to be accepted), which is
+not a fact about this transition system (it has no RX slot) but about the receive path: C10 proves it
+for the receive-path system (`C10.empty_slot_no_pending`: with the RX slot empty there is no
+accept-pending exchange; `C10.unclaimed_discarded_within`: an unclaimed message leaves the slot within
+the accept deadline plus the sweeper polls). `OwnedHaveHandles` is no longer a hypothesis
+(`owned_iff_handle`). The open finding `C20-handshake-needs-two-slots` (`two_slots_needed`) is about
+admission, not about leaks, and is the documented exception to the property's clause "as soon as one
+session is idle a new handshake succeeds". -/
+theorem quiescent_no_leak (s : Handshake.Sys) (h : Handshake.Reach s)
+    (hg : ∀ g ∈ s.guards, g.complete = true) (hh : s.handles = [])
+    (hc : C10.closerIdle s.t) (hp : NoPending s.t) :
+    ∀ x ∈ s.t.sessions, x.reserved = false ∧ x.noExchanges = true :=
+  quiescent_no_leak_partial s h hg hh hc hp (fun x hx i ho => (Handshake.hinv_reach s h).ownedHave x hx i ho)
 
 /-- non-vacuity of the hypotheses on a reachable non-empty state: the history `exOps` (carrier,
 abandoned and completed reservation), an exchange on the completed session opened and dropped: no
